@@ -9,11 +9,41 @@ namespace EdVerif.Impl
 open EdVerif.Prims
 namespace Scalar
 
-/-- the 64 signed radix-16 digits of a scalar (`(*Scalar).signedRadix16`) -/
-def radix16Digits (x : W4) : Array Int :=
-  match signedRadix16 x with
-  | .ok d => d
-  | _ => #[]
+/-- the value of a successful outcome, `d` otherwise -/
+def _root_.EdVerif.Impl.Res.getD {α : Type} (r : Res α) (d : α) : α :=
+  match r with
+  | .ok v => v
+  | _ => d
+
+/-- the 64 signed radix-16 digits of a scalar (`(*Scalar).signedRadix16`); `#[]` when `signedRadix16` panics.
+(Stated with `Res.getD` rather than an inline `match`, so that no definitional check ever has to evaluate
+`signedRadix16 x` on a symbolic scalar.) -/
+def radix16Digits (x : W4) : Array Int := (signedRadix16 x).getD #[]
 
 end Scalar
+
+/-! `int8` values are modelled by the mathematical integer they denote (`Int`, range `-128 … 127`); all other Go
+integer types by their two's complement representative (`Nat`).  The operations below are the Go operations on
+`int8` operands (wrapping), and the conversions between the two models. -/
+namespace I8
+
+/-- two's-complement wrap to `int8` -/
+def wrap (x : Int) : Int := (x + 128) % 256 - 128
+/-- `uint8(a)` / the bit pattern of an `int8` -/
+def toU8 (a : Int) : Nat := (a % 256).toNat
+/-- conversion of an `int8` to a `bits`-wide integer type (sign extension; the result is the representative mod `2^bits`) -/
+def toU (bits : Nat) (a : Int) : Nat := (a % ((2 ^ bits : Nat) : Int)).toNat
+/-- `int8(b)` for a byte `b` -/
+def ofU8 (n : Nat) : Int := if n < 128 then (n : Int) else (n : Int) - 256
+def add (a b : Int) : Int := wrap (a + b)
+def sub (a b : Int) : Int := wrap (a - b)
+/-- `a >> k` on `int8`: arithmetic shift = floor division -/
+def sar (a : Int) (k : Nat) : Int := a / ((2 ^ k : Nat) : Int)
+/-- `a << k` on `int8` -/
+def shl (a : Int) (k : Nat) : Int := wrap (a * ((2 ^ k : Nat) : Int))
+def xor (a b : Int) : Int := ofU8 (toU8 a ^^^ toU8 b)
+def and (a b : Int) : Int := ofU8 (toU8 a &&& toU8 b)
+def or (a b : Int) : Int := ofU8 (toU8 a ||| toU8 b)
+
+end I8
 end EdVerif.Impl
